@@ -735,5 +735,5 @@ def replay_witnesses(ctx, exe):
             ctx.violation("finding", "rotate(dir=+z, rot) does not return rot when 0 < sin(theta_rot) < 0.005 and rot.y < 0: "
                           "the sign of rot.y is dropped (polar angle to rot not preserved)",
                           {"dir": [0, 0, 1], "rot": rot, "impl_result": v, "dot(result, rot)": dotp, "expected_dot": 1.0,
-                           "theorem": "C04_rotate_old_preserves_polar_small_branch_refuted"},
+                           "theorem": "C04_rotate_preserves_polar_small_branch_refuted"},
                           signature="rotate-small-sintheta-branch-drops-sign-of-y")
